@@ -145,6 +145,12 @@ func VerifHarness_C12_spawn() {
 	vAssume(k < M)
 	j := Address(vU64("j"))
 	vAssume(j <= 2)
+	if vParamOr("concrete", 0) == 1 {
+		// every placement enumerated (loaders that branch on the offset)
+		off = Address(vPick("offc", 0, int(M)-1))
+		k = Address(vPick("kc", 0, int(M)-1))
+		j = Address(vPick("jc", 0, 2))
+	}
 	s1 := vMkSim(M, M, M, P, 100)
 	s2 := vMkSim(M, M, M, P, 100)
 	s1.AddWarrior(d)
